@@ -4,6 +4,7 @@ Multitask with an oracle that knows exactly what must happen."""
 import json
 import os
 from fractions import Fraction
+from typing import Any
 
 from pyvolutionary.abstract import OptimizationAbstract
 from pyvolutionary.models import Agent, BaseOptimizationConfig, Task
@@ -57,9 +58,9 @@ class RateScriptOptimizer(OptimizationAbstract):
 # C19 / C20: optimizers that log each optimize() call to an append-only file and return a scripted best cost
 # ---------------------------------------------------------------------------------------------------------
 class LogConfig(BaseOptimizationConfig):
-    a: float | int | str | None = None
-    b: float | int | str | None = None
-    c: float | int | str | None = None
+    a: Any = None
+    b: Any = None
+    c: Any = None
 
 
 def _append(path, record):
@@ -79,10 +80,13 @@ def read_log(path):
 
 
 class LoggingOptimizer(OptimizationAbstract):
-    """optimize() is the library's own; the single cycle it runs produces one agent whose cost is looked up in
-    a score table by (current parameters, running trial counter shared through a file)."""
+    """optimize() is the library's own loop (one trivial cycle); afterwards the call is logged and the returned
+    best cost is looked up in a score table by (task, current parameters, trial counter).  The trial counter is a
+    multiprocessing.Value created before the case and inherited by the forked trial workers; mean and std are
+    permutation invariant, so the oracle does not depend on which worker got which trial."""
     log_path = None          # class attributes: set by the harness before the case (inherited by forks)
-    scores = None            # {params_key: [score per trial]}  or a callable
+    scores = None            # {"<task>|<params json>": [score per trial]}
+    counters = None          # {"<task>|<params json>": multiprocessing.Value}
     label = "LoggingOptimizer"
 
     def __init__(self, config=None):
@@ -96,8 +100,10 @@ class LoggingOptimizer(OptimizationAbstract):
         self._config = LogConfig(population_size=1, max_cycles=1, fitness_error=None, **parameters)
 
     def params(self):
+        if self._config is None:
+            return {}
         d = self._config.model_dump()
-        return {k: d[k] for k in ("a", "b", "c") if d.get(k) is not None}
+        return {k: (d[k].item() if hasattr(d[k], "item") else d[k]) for k in ("a", "b", "c") if d.get(k) is not None}
 
     def _init_population(self):
         self._population = [Agent(position=[0.5], cost=0.0, fitness=1.0)]
@@ -108,22 +114,20 @@ class LoggingOptimizer(OptimizationAbstract):
     def optimize(self, task, mode=None, workers=None):
         res = super().optimize(task, mode=mode, workers=workers)
         params = self.params()
-        key = json.dumps(params, sort_keys=True)
-        _append(type(self).log_path, {"algo": self.name, "params": params, "task": task.name, "mode": mode,
-                                      "workers": workers, "pid": os.getpid(), "minmax": str(task.minmax)})
-        # which trial is this?  count earlier log lines for the same (algo, params, task)
-        n = sum(1 for r in read_log(type(self).log_path)
-                if r["algo"] == self.name and r["params"] == params and r["task"] == task.name)
-        score = self._score(key, task, n - 1)
+        key = f"{task.name}|{json.dumps(params, sort_keys=True)}"
+        cls = LoggingOptimizer
+        trial = 0
+        ctr = (cls.counters or {}).get(f"{self.name}|{key}") or (cls.counters or {}).get(key)
+        if ctr is not None:
+            with ctr.get_lock():
+                trial = ctr.value
+                ctr.value += 1
+        _append(cls.log_path, {"algo": self.name, "params": params, "task": task.name, "mode": mode,
+                               "workers": workers, "pid": os.getpid(), "minmax": str(task.minmax), "trial": trial})
+        row = (cls.scores or {}).get(key)
+        score = 0.0 if row is None else float(row[trial % len(row)])
         best = res.best_solution.model_copy(update={"cost": score})
         return res.model_copy(update={"best_solution": best})
-
-    def _score(self, key, task, trial):
-        table = type(self).scores or {}
-        row = table.get(f"{task.name}|{key}", table.get(key))
-        if row is None:
-            return 0.0
-        return float(row[trial % len(row)])
 
 
 def make_logging_optimizer(label):
